@@ -90,7 +90,9 @@ func genDirected(t *rapid.T, n int) []txh.Seg {
 		order := rapid.Permutation(intsTo(n)).Draw(t, "order")
 		v, b, c := order[0], order[1], order[2]
 		segs = append(segs, txh.Seg{P: v, Until: "Commit.begin"})
-		if rapid.Bool().Draw(t, "othersOpsFirst") {
+		if rapid.Bool().Draw(t, "othersOpsFirst") || knownSnapshot {
+			// (while the snapshot finding is listed nobody starts operations during a Commit: the second beater has to
+			// have done its operations before the victim's first try)
 			segs = append(segs, txh.Seg{P: c, Until: "Commit.begin"})
 		}
 		segs = append(segs, txh.Seg{P: b})
@@ -670,6 +672,73 @@ func TestC04_Regress_SecondMergePass(t *testing.T) {
 	}
 	if twice == 0 {
 		t.Fatalf("HARNESS-ERROR no writer went through two merge passes")
+	}
+	t.Logf("writers with >= 2 merge passes: %d", twice)
+}
+
+// TestC04_Regress_BeatenTwiceDirected: the same three writers under a directed schedule that beats writer 0 twice for
+// certain: everybody does its operations; writer 1 commits; writer 0 tries, is refused, refetches and merges and stops
+// right before its second try; writer 2 commits; writer 0 goes on (second refusal, second merge pass). All three
+// must commit and the store must hold all their changes (in-node, separate and actively persisted values).
+func TestC04_Regress_BeatenTwiceDirected(t *testing.T) {
+	twice := 0
+	for _, placement := range []int{0, 1, 3} {
+		for _, kind := range []string{"update", "add"} {
+			for _, stop := range []string{"TLog.Add", "L2.DualLock", "Registry.Get"} {
+				e, err := txh.NewEnv(1)
+				if err != nil {
+					t.Fatalf("HARNESS-ERROR %v", err)
+				}
+				txh.SeedUUIDs(uint64(2000 + placement))
+				stores := []txh.StoreOpts{{Name: "st0", Slot: 8, Unique: true, Placement: placement}}
+				models, err := seedStore(e, stores, [][]int{{10, 20, 30, 40}})
+				if err != nil {
+					t.Fatalf("HARNESS-ERROR %v", err)
+				}
+				var progs []txh.TxnProg
+				for w := 0; w < 3; w++ {
+					op := txh.Op{Kind: "update", K: 10 * (w + 1), Tag: fmt.Sprintf("w%d", w), Size: 10}
+					if kind == "add" {
+						op = txh.Op{Kind: "add", K: 100 + w, Tag: fmt.Sprintf("w%d", w), Size: 10}
+					}
+					progs = append(progs, txh.TxnProg{Mode: sop.ForWriting, End: "commit", Ops: []txh.Op{op}})
+				}
+				segs := []txh.Seg{{P: 0, Until: "Commit.begin"}, {P: 1, Until: "Commit.begin"}, {P: 2, Until: "Commit.begin"}, {P: 1},
+					{P: 0, Until: "StoreRepository.GetWithTTL"}, {P: 0, Until: stop}, {P: 2}, {P: 0}}
+				res, s := e.RunConcurrent(stores, progs, nil, txh.ConcOpts{Directed: segs, MaxTime: 15 * time.Second, Budget: 60 * time.Second})
+				if s.TimedOut {
+					e.Cleanup()
+					continue
+				}
+				want := models[0].Clone()
+				for i, r := range res {
+					if !r.Committed {
+						t.Fatalf("placement %s, %s, stop %s: writer %d (merge passes %d) did not commit: %v", txh.PlacementNames[placement], kind, stop, i, mergePasses(r), r.CommitErr)
+					}
+					for _, o := range r.Obs {
+						if kind == "add" {
+							want.Add(o.Op.K, o.Wrote)
+						} else {
+							want.SetUnique(o.Op.K, o.Wrote)
+						}
+					}
+					if mergePasses(r) >= 2 {
+						twice++
+					}
+				}
+				d, err := e.Dump(stores, sop.ForReading)
+				if err != nil {
+					t.Fatalf("placement %s, %s, stop %s: reader: %v", txh.PlacementNames[placement], kind, stop, err)
+				}
+				if why := txh.CheckDump(d, stores, []*txh.Model{want}); why != "" {
+					t.Fatalf("placement %s, %s, stop %s: all writers committed but %s", txh.PlacementNames[placement], kind, stop, why)
+				}
+				e.Cleanup()
+			}
+		}
+	}
+	if twice < 6 {
+		t.Fatalf("HARNESS-ERROR only %d writers went through two merge passes", twice)
 	}
 	t.Logf("writers with >= 2 merge passes: %d", twice)
 }
